@@ -25,6 +25,32 @@ namespace verif
       }
     return f;
   }
+
+  // A position-weighted sum of a sector's bytes (fits 31 bits): lets a
+  // trace say "the same data" without carrying it.
+  template <class It> inline unsigned long sum(It begin, It end)
+  {
+    unsigned long s = 0, i = 1;
+    for (It p = begin; p != end; ++p, ++i)
+      s += i * static_cast<unsigned char>(*p);
+    return s;
+  }
+
+  // Small stable identifiers for objects (in order of first use).
+  inline int id_of(const void* p)
+  {
+    static const void* seen[64];
+    static int n = 0;
+    for (int i = 0; i < n; ++i)
+      if (seen[i] == p)
+	return i;
+    if (n < 64)
+      {
+	seen[n] = p;
+	return n++;
+      }
+    return 64;
+  }
 }  // namespace verif
 
 // One ndjson line per event, flushed at once so that a later crash
@@ -39,8 +65,10 @@ namespace verif
 	fflush(verif_f_);				\
       }							\
   } while (0)
+#define VERIF_ONLY(x) x
 #else
 #define VERIF_EVENT(...) do { } while (0)
+#define VERIF_ONLY(x)
 #endif
 
 #endif
